@@ -615,6 +615,21 @@ def locks_table():
         for pm in re.finditer(r"AbiProtocol::(\w+)", region):
             if pm.group(1) not in under:
                 under.append(pm.group(1))
+    # what `AbiConnection<T>` asks of `T` to be shared between threads (Sync) or moved to one (Send): every bound on
+    # `T` in the generics or the where clause of the two unsafe impls
+    def auto_bounds(which):
+        m2 = re.search(r"unsafe\s+impl\s*<([^>]*)>\s*%s\s+for\s+AbiConnection\s*<\s*T\s*>\s*(?:where\s+([^{]*))?\{" % which, abi)
+        if not m2:
+            return None
+        found = []
+        for part in (m2.group(1) or "", m2.group(2) or ""):
+            for bm in re.finditer(r"\bT\s*:\s*([^,]+)", part):
+                for b in bm.group(1).split("+"):
+                    b = b.strip()
+                    if b and b not in found:
+                        found.append(b)
+        return found
+    sync_b, send_b = auto_bounds("Sync"), auto_bounds("Send")
     gl = re.sub(r"\s+", " ", find_fn(abi, "lock") or "")
     ignores_poison = "unwrap_or_else" in gl and "into_inner" in gl and ".lock().unwrap()" not in gl
     L = ["/- @generated by tools/translate.py from the current Rust source — do not edit -/",
@@ -624,6 +639,8 @@ def locks_table():
          "def templatesHeldDuringCreateInstance : Bool := %s" % ("true" if held else "false"),
          "def lockIgnoresPoison : Bool := %s" % ("true" if ignores_poison else "false"),
          "def protocolUnderTemplatesLock : List String := %s" % lean_list(lean_str(x) for x in under),
+         "def connSyncBounds : Option (List String) := %s" % ("none" if sync_b is None else "some " + lean_list(lean_str(x) for x in sync_b)),
+         "def connSendBounds : Option (List String) := %s" % ("none" if send_b is None else "some " + lean_list(lean_str(x) for x in send_b)),
          "", "end Sfv.Generated"]
     text = "\n".join(L) + "\n"
     old = open(OUT_LOCKS).read() if os.path.exists(OUT_LOCKS) else None
